@@ -144,7 +144,7 @@ theorem loopL_step {right : Str} (hr : right ∈ lRights L) (P s Z env : Str) (t
 
 /-! ### the three bracketed forms, given their parts -/
 
-theorem set_rt (l r : Str) (hp : (l, r) ∈ L.setBrackets) (t : LTerm) (ts : List LTerm) (s Z : Str) (b : Nat)
+theorem lset_rt (l r : Str) (hp : (l, r) ∈ L.setBrackets) (t : LTerm) (ts : List LTerm) (s Z : Str) (b : Nat)
     (f : Nat) (hterm : RL (L.segTerm f (s ++ Z)) (t, s.length))
     (hloop : RL (L.segComponents f r (l ++ (s ++ Z)) (l.length + s.length) [t]) (ts, b)) :
     RL (L.segSet (f + 1) (l ++ (s ++ Z))) (.set l (LTerms.ofList ts) r, b) := by
@@ -158,7 +158,7 @@ theorem set_rt (l r : Str) (hp : (l, r) ∈ L.setBrackets) (t : LTerm) (ts : Lis
     · simp [h2, RL]
     · simp [h2, RL]
 
-theorem compound_rt (conn : Str) (j : Nat) (hj : L.connecters[j]? = some conn) (ts : List LTerm)
+theorem lcompound_rt (conn : Str) (j : Nat) (hj : L.connecters[j]? = some conn) (ts : List LTerm)
     (Z : Str) (b : Nat) (f : Nat)
     (hloop : RL (L.segComponents f L.compR (L.compL ++ (conn ++ (L.separator ++ Z)))
       (L.compL.length + conn.length) []) (ts, b)) :
@@ -182,7 +182,7 @@ theorem compound_rt (conn : Str) (j : Nat) (hj : L.connecters[j]? = some conn) (
   · simp [h2, RL]
   · simp [h2, RL]
 
-theorem statement_rt (cop : Str) (hc : cop ∈ L.copulas) (a b : LTerm) (sa sb rest : Str) (f : Nat)
+theorem lstatement_rt (cop : Str) (hc : cop ∈ L.copulas) (a b : LTerm) (sa sb rest : Str) (f : Nat)
     (ha : RL (L.segTerm f (sa ++ (cop ++ (sb ++ (L.stmtR ++ rest))))) (a, sa.length))
     (hb : RL (L.segTerm f (sb ++ (L.stmtR ++ rest))) (b, sb.length)) :
     RL (L.segStatement (f + 1) (L.stmtL ++ (sa ++ (cop ++ (sb ++ (L.stmtR ++ rest))))))
